@@ -89,14 +89,22 @@ def ev(e, env):
             return base[ev(e.slice, env)]
         except (KeyError, IndexError, TypeError) as ex:
             raise Undecidable("subscript: %s" % ex)
-    if isinstance(e, ast.Call) and isinstance(e.func, ast.Name) and e.func.id in ("bool", "int", "len", "abs", "max", "min", "range") and not e.keywords:
-        return {"bool": bool, "int": int, "len": len, "abs": abs, "max": max, "min": min, "range": range}[e.func.id](*[ev(a, env) for a in e.args])
+    if isinstance(e, ast.Call) and isinstance(e.func, ast.Name) and e.func.id in ("bool", "int", "len", "abs", "max", "min", "range", "divmod", "tuple", "list", "sum", "sorted", "reversed") and not e.keywords:
+        try:
+            return {"bool": bool, "int": int, "len": len, "abs": abs, "max": max, "min": min, "range": range, "divmod": divmod, "tuple": tuple, "list": list, "sum": sum, "sorted": sorted,
+                    "reversed": lambda x: tuple(reversed(x))}[e.func.id](*[ev(a, env) for a in e.args])
+        except (ZeroDivisionError, ValueError, TypeError) as ex:
+            raise Undecidable("builtin %s: %s" % (e.func.id, ex))
     if isinstance(e, ast.Call) and isinstance(e.func, ast.Name) and e.func.id in env.get("__funcs__", {}) and not e.keywords:
         # a call to another pure helper of the same module
         sub = {"__funcs__": env["__funcs__"], "__depth__": env.get("__depth__", 0) + 1}
         if sub["__depth__"] > 20:
             raise Undecidable("call depth")
         return call(env["__funcs__"][e.func.id], [ev(a, env) for a in e.args], sub)
+    if isinstance(e, ast.Call) and isinstance(e.func, ast.Attribute) and e.func.attr in ("replace", "startswith", "endswith", "lower", "upper", "split") and not e.keywords:
+        v = ev(e.func.value, env)
+        if isinstance(v, str):
+            return getattr(v, e.func.attr)(*[ev(a, env) for a in e.args])
     if isinstance(e, ast.Call) and isinstance(e.func, ast.Attribute) and e.func.attr == "bit_length" and not e.args:
         v = ev(e.func.value, env)
         if isinstance(v, int):
@@ -134,6 +142,9 @@ def _exec(stmts, env):
             continue
         if isinstance(st, ast.Pass):
             continue
+        if isinstance(st, ast.Expr) and isinstance(st.value, ast.Yield):
+            env.setdefault("__yield__", []).append(None if st.value.value is None else ev(st.value.value, env))
+            continue
         if isinstance(st, ast.AugAssign) and isinstance(st.target, ast.Name) and type(st.op) in _BIN:
             env[st.target.id] = _BIN[type(st.op)](ev(st.target, env), ev(st.value, env))
             continue
@@ -160,8 +171,11 @@ def call(fn, args, env=None):
     if len(params) != len(args):
         raise Undecidable("arity")
     e.update(zip(params, args))
+    is_gen = any(isinstance(n, (ast.Yield, ast.YieldFrom)) for n in ast.walk(fn))
+    if is_gen:
+        e["__yield__"] = []
     try:
         _exec(fn.body, e)
     except _Return as r:
-        return r.v
-    return None
+        return e["__yield__"] if is_gen else r.v
+    return e["__yield__"] if is_gen else None
